@@ -341,7 +341,7 @@ and the rdatatypes of its rdatasets in node order -/
 structure ZNode where
   name : Name
   types : List Nat
-  deriving Repr
+  deriving Repr, DecidableEq
 
 inductive Evt where
   | sign (name : Name) (rdtype : Nat)                       -- `rrset_signer(txn, rrset)`
@@ -440,6 +440,43 @@ def walkSorted (c : NsecConsts) (v : LastVariant) (origin : Name) (nodes : List 
 
 def signZoneNsec (c : NsecConsts) (v : LastVariant) (origin : Name) (nodes : List ZNode) (withSigner : Bool) : List Evt :=
   walkSorted c v origin nodes withSigner (insSort (fun a b => nameLe a.name b.name) nodes)
+
+/-! ## specification side of the NSEC chain (no code of dnspython corresponds to these definitions) -/
+
+/-- a delegation point as `_sign_zone_nsec` recognises it: has NS, is not the origin (and, because the code
+tests the remembered name for truthiness, is not the empty name) -/
+def isCut (c : NsecConsts) (origin : Name) (z : ZNode) : Bool :=
+  z.types.contains c.tNS && !(nameEq z.name origin) && truthy z.name
+
+def subOf (y d : ZNode) : Bool := isSubdomain y.name d.name
+
+/-- `z` lies strictly beneath a delegation point of the zone -/
+def occluded (c : NsecConsts) (origin : Name) (L : List ZNode) (z : ZNode) : Bool :=
+  L.any fun d => isCut c origin d && subOf z d && !subOf d z
+
+/-- the names that get an NSEC: those not beneath a delegation, in the order of the sorted list -/
+def secure (c : NsecConsts) (origin : Name) (L : List ZNode) : List ZNode :=
+  L.filter fun z => !occluded c origin L z
+
+/-- subdomains of `d` among the later names form one block directly after `d` -/
+def blockOk (d : ZNode) (rest : List ZNode) : Bool :=
+  (rest.dropWhile fun y => subOf y d).all fun y => !subOf y d
+
+def contig : List ZNode → Bool
+  | [] => true
+  | d :: rest => blockOk d rest && contig rest
+
+/-- hypotheses of `C15.nsec_chain_partial` on a concrete sorted list, as a Boolean (evaluated by the
+correspondence check on every generated zone): strictly sorted; no earlier name beneath a later one;
+`is_subdomain` transitive on the list; subtrees contiguous -/
+def chainHyps (L : List ZNode) : Bool × Bool × Bool × Bool :=
+  let rec pairwiseB (r : ZNode → ZNode → Bool) : List ZNode → Bool
+    | [] => true
+    | a :: rest => rest.all (r a) && pairwiseB r rest
+  (pairwiseB (fun a b => decide (cmpOrder a.name b.name < 0)) L,
+   pairwiseB (fun a b => !subOf a b) L,
+   L.all fun x => L.all fun y => L.all fun z => !(subOf x y && subOf y z) || subOf x z,
+   contig L)
 
 /-- wire RDATA of an NSEC record as `NSEC._to_wire` emits it (next name verbatim, uncompressed) -/
 def nsecRdata (next : Name) (origin : Option Name) (ws : List (Nat × Bytes)) : Except DErr Bytes :=
